@@ -28,7 +28,8 @@ Definition aerr_name (e : aerr) : bytes :=
   | ABlech32 e => "blech32:"%lb ++ b32err_name e
   | AInvalidAddress => "invalidaddress"%lb | AInvalidSegwitV0Encoding => "invalidsegwitv0encoding"%lb
   | AInvalidBlindingPubKey => "invalidblindingpubkey"%lb | AInvalidLength => "invalidlength"%lb
-  | AInvalidAddressVersion => "invalidaddressversion"%lb end.
+  | AInvalidAddressVersion => "invalidaddressversion"%lb
+  | AInvalidWitnessProgramLength => "invalidwitnessprogramlength"%lb end.
 
 (* "ok <bech hrp of the network> <pkh|sh|wp<ver>> <payload hex> <blinder hex>" *)
 Definition show_addr (a : address) : bytes :=
